@@ -47,7 +47,29 @@ func GlobalInits(pkg *ssa.Package) map[string]*InitVal {
 			return
 		}
 		g, ok := st.Addr.(*ssa.Global)
-		if !ok || g.Pkg != pkg {
+		if !ok {
+			// field-wise initialisation of a struct-typed global
+			if fa, isFA := st.Addr.(*ssa.FieldAddr); isFA {
+				if fg, isG := fa.X.(*ssa.Global); isG && fg.Pkg == pkg {
+					iv := out[fg.Name()]
+					if iv == nil {
+						iv = &InitVal{Global: fg, NStores: 1}
+						out[fg.Name()] = iv
+					}
+					if iv.Struct == nil {
+						iv.Struct = map[string]ssa.Value{}
+					}
+					iv.Store = st
+					if _, dup := iv.Struct[FieldName(fa)]; dup {
+						iv.Struct[FieldName(fa)] = nil
+					} else {
+						iv.Struct[FieldName(fa)] = st.Val
+					}
+				}
+			}
+			return
+		}
+		if g.Pkg != pkg {
 			return
 		}
 		iv := out[g.Name()]
